@@ -1,6 +1,7 @@
 import PycsepVerif.GeneratedSrc
 import PycsepVerif.Model.Readers
 import PycsepVerif.Source.C15
+import PycsepVerif.Model.PersistText
 /-!
 # Source tie of C19: the per-record body of `zmap_ascii` (csep/utils/readers.py) generated from the Python source equals the
 hand model's `Readers.zmapRec` (Model/Readers.lean)
@@ -232,4 +233,242 @@ theorem reader_parse_datetime_eq_model (s : List Char) :
   cases hw1 : Time.strptimeWith { sep := 'T', frac := true, zone := false } s <;>
     cases hw2 : Time.strptimeWith { sep := 'T', frac := false, zone := false } s <;> simp [hw1, hw2]
 
+end Src
+
+/-!
+# Source tie of C19 / C14: the per-record body of `csep_ascii` (csep/utils/readers.py:451-475) and its nested
+`is_header_line`, generated from the Python source, equal the text model of the C14 owner
+(`PersistText.isHeader`, `PersistText.parseRecord` with the float text codec `PersistText.textCodec`)
+
+The definition is the BODY of the loop `for i, line in enumerate(catalog_reader)`, a function of the index, of one record of
+the csv reader (a list of strings) and of the first-pass flag. `line[k]` raises IndexError beyond the end, `float('…')` /
+`int('…')` raise ValueError, the time string goes through the nested `parse_datetime` (tied in Source/C19.lean),
+`continue` is the result `none`. The result is the tuple appended to `events`, then `catalog_id`.
+
+Hypotheses of the theorem (inputs on which model and prelude speak about different things):
+* the four float cells are inside the float text layer (`Py.float_str s ≠ error other`: not a non-finite word, no overflow,
+  ASCII) — the model's `FloatText.floatOfStr` answers `none` there, Python returns nan / inf;
+* the catalog-id cell is read by `int()` as the model's `parseInt?` reads it (canonical decimal text, or no integer at
+  all): Python's `int` also accepts blanks, `+` and underscores, which `write_ascii` never writes.
+-/
+namespace Src
+open Persist PersistText Time
+
+/-- the exceptions of the text model as the prelude's -/
+def txtErr : TextErr → Py.Err
+  | .valueError => .valueError
+  | .timeFormat => .other
+  | .indexError => .indexError
+
+theorem csep_is_header_eq_model (line : List (List Char)) :
+    Src.csep_is_header line = (match isHeader line with | .ok b => .ok b | .error e => .error (txtErr e)) := by
+  cases line with
+  | nil => simp [Src.csep_is_header, Py.list_item, isHeader, txtErr]
+  | cons f t =>
+    have : "lon".toList = (['l', 'o', 'n'] : List Char) := by decide
+    by_cases h : f = ['l', 'o', 'n'] <;> simp [Src.csep_is_header, Py.list_item, isHeader, this, h]
+
+theorem float_str_of (s : List Char) (h : Py.float_str s ≠ .error .other) :
+    Py.float_str s = match textCodec.dec s with | some x => .ok x | none => .error .valueError := by
+  unfold Py.float_str at h ⊢
+  simp only [textCodec]
+  cases hf : FloatText.floatOfStr s with
+  | some x => rfl
+  | none =>
+    simp only [hf] at h ⊢
+    split at h
+    · exact absurd rfl h
+    · rename_i hc; simp [hc]
+
+/-- the tuple the body produces as the model's event and catalog id -/
+def toEvent (r : ((List Char ⊕ Int) × Int × Rat × Rat × Rat × Rat) × Int) : Event × Int :=
+  ({ id := storeId (match r.1.1 with | .inl s => s | .inr n => natDigits (n.toNat + 1) n.toNat),
+     ms := r.1.2.1, lat := r.1.2.2.1, lon := r.1.2.2.2.1, depth := r.1.2.2.2.2.1, mag := r.1.2.2.2.2.2 }, r.2)
+
+set_option hygiene false in
+macro "csep_body" : tactic => `(tactic| (
+  cases textCodec.dec a0 <;> simp [txtErr, bind, Except.bind]
+  cases textCodec.dec a1 <;> simp [txtErr]
+  cases textCodec.dec a2 <;> simp [txtErr]
+  cases readerParse a3 <;> simp [txtErr]
+  cases textCodec.dec a4 <;> simp [txtErr]
+  cases parseInt? a5 <;> simp [txtErr, Py.tryCatch, toEvent, pure, Except.pure] <;>
+    by_cases he : a6 = [] <;> simp [he]))
+
+set_option hygiene false in
+macro "csep_short" : tactic => `(tactic| (
+  simp [txtErr, bind, Except.bind, *]
+  all_goals (try (cases textCodec.dec a0 <;> (try simp)))
+  all_goals (try (cases textCodec.dec a1 <;> (try simp)))
+  all_goals (try (cases textCodec.dec a2 <;> (try simp)))
+  all_goals (try (cases readerParse a3 <;> (try simp)))
+  all_goals (try (cases textCodec.dec a4 <;> (try simp)))
+  all_goals (try (cases parseInt? a5 <;> (try simp [Py.tryCatch])))
+  all_goals (try simp [Py.tryCatch])))
+
+/-- the body of the loop of `csep_ascii`, mapped to the model's event: on the first pass a header record gives nothing
+    (`continue`); otherwise the record is parsed cell by cell in the source's order, and the first failing step's exception
+    is the result (IndexError / ValueError / CSEPIOException = `other`) -/
+theorem csep_record_eq_model (i : Nat) (line : List (List Char)) (first : Bool)
+    (hfloat : ∀ k ∈ [0, 1, 2, 4], ∀ s, line[k]? = some s → Py.float_str s ≠ .error .other)
+    (hcid : ∀ s, line[5]? = some s →
+      Py.int_str s = match parseInt? s with | some n => .ok n | none => .error .valueError) :
+    (match Src.csep_record (i : Int) line first with
+     | .error e => Except.error e
+     | .ok r => .ok (r.map toEvent))
+    = (match (if first then isHeader line else .ok false) with
+       | .error e => .error (txtErr e)
+       | .ok true => .ok none
+       | .ok false => match parseRecord textCodec i line with
+         | .error e => .error (txtErr e)
+         | .ok r => .ok (some r)) := by
+  have hlon : "lon".toList = (['l', 'o', 'n'] : List Char) := by decide
+  rcases line with _ | ⟨a0, _ | ⟨a1, _ | ⟨a2, _ | ⟨a3, _ | ⟨a4, _ | ⟨a5, _ | ⟨a6, rest⟩⟩⟩⟩⟩⟩⟩
+  case cons.cons.cons.cons.cons.cons.cons =>
+    have hf0 := float_str_of a0 (hfloat 0 (by simp) a0 (by simp))
+    have hf1 := float_str_of a1 (hfloat 1 (by simp) a1 (by simp))
+    have hf2 := float_str_of a2 (hfloat 2 (by simp) a2 (by simp))
+    have hf4 := float_str_of a4 (hfloat 4 (by simp) a4 (by simp))
+    have hc := hcid a5 (by simp)
+    simp only [Src.csep_record, csep_is_header_eq_model, reader_parse_datetime_eq_model, Py.list_item, hf0, hf1, hf2, hf4, hc,
+      parseRecord, floatCell, cell, isHeader, List.getElem?_cons_zero, List.getElem?_cons_succ]
+    cases first
+    · simp only [Bool.false_eq_true, if_false, Bool.false_and]
+      csep_body
+    · by_cases h : a0 = ['l', 'o', 'n']
+      · simp [h, hlon]
+      · have hb : (a0 == "lon".toList) = false := by simp [hlon, h]
+        simp only [if_true, hb, Bool.true_and, Bool.false_eq_true, if_false]
+        csep_body
+  all_goals (
+    try have hf0 := float_str_of a0 (hfloat 0 (by simp) a0 (by simp))
+    try have hf1 := float_str_of a1 (hfloat 1 (by simp) a1 (by simp))
+    try have hf2 := float_str_of a2 (hfloat 2 (by simp) a2 (by simp))
+    try have hf4 := float_str_of a4 (hfloat 4 (by simp) a4 (by simp))
+    try have hc := hcid a5 (by simp)
+    clear hfloat hcid
+    simp only [Src.csep_record, csep_is_header_eq_model, reader_parse_datetime_eq_model, Py.list_item,
+      parseRecord, floatCell, cell, isHeader, List.getElem?_cons_zero, List.getElem?_cons_succ, List.getElem?_nil, *]
+    cases first
+    · simp only [Bool.false_eq_true, if_false, Bool.false_and]
+      csep_short
+    · first
+        | (simp [txtErr]; done)
+        | (by_cases h : a0 = ['l', 'o', 'n']
+           · simp [h, hlon]
+           · have hb : (a0 == (['l', 'o', 'n'] : List Char)) = false := by simp [h]
+             simp only [if_true, hb, Bool.true_and, Bool.false_eq_true, if_false]
+             csep_short))
+end Src
+
+/-!
+## the per-record body of `jma_csv` (readers.py:664-674) against `ReaderText.jmaTokens` / `Readers.jmaRecF`
+
+The two helper lambdas of the function (`parse_date_string`, `is_header_line`) are inlined by the translator.
+`datetime.strptime(x, '%Y-%m-%dT%H:%M:%S.%f%z').timestamp()` is the prelude's `Py.strptime_timestamp`, whose text reading IS the
+reader text model's `parseJmaTime`; the float steps `1000. * ts` and `round(...)` are Soft64 operations in the source's order.
+-/
+namespace Src
+open Readers ReaderText
+
+/-- the format of `jma_csv` as the generated definition spells it -/
+def jmaFmt : List Char :=
+  ['%', 'Y', '-', '%', 'm', '-', '%', 'd', 'T', '%', 'H', ':', '%', 'M', ':', '%', 'S', '.', '%', 'f', '%', 'z']
+
+/-- outcome of one pass of the loop with the exception class forgotten (the model has one class per record) -/
+def jmaOutcome : Except Py.Err (Option (Int × Int × Rat × Rat × Rat × Rat)) → Option (Option Event)
+  | .ok none => some none
+  | .ok (some r) => some (some ⟨r.2.1, r.2.2.1, r.2.2.2.1, r.2.2.2.2.1, r.2.2.2.2.2⟩)
+  | .error _ => none
+
+theorem strptime_timestamp_of (s : List Char) (h : Py.strptime_timestamp s jmaFmt ≠ .error .other) :
+    Py.strptime_timestamp s jmaFmt =
+      match parseJmaTime s with
+      | some (c, us, off) =>
+        if c.valid && decide (0 ≤ us) && decide (us < 1000000) then
+          .ok (Soft64.fl64 ((((c.epochSec - off) * 1000000 + us : Int) : Rat) / 1000000))
+        else .error .valueError
+      | none => .error .valueError := by
+  have hf : jmaFmt = "%Y-%m-%dT%H:%M:%S.%f%z".toList := by decide
+  unfold Py.strptime_timestamp at h ⊢
+  simp only [hf, ne_eq, not_true_eq_false, if_false] at h ⊢
+  by_cases ha : Py.nonAscii s = true
+  · simp [ha] at h
+  · simp only [ha, Bool.false_eq_true, if_false] at h ⊢
+    cases hp : parseJmaTime s with
+    | some r => rfl
+    | none =>
+      simp only [hp] at h ⊢
+      by_cases hz : Py.zoneWithSeconds s = true
+      · simp [hz] at h
+      · simp [hz]
+
+/-- the body of the loop of `jma_csv` with the exception class forgotten: nothing on a header record of the first pass; the
+    model's event (time through the float path `round(1000. * timestamp())`, `Readers.jmaRecF`) when the tokens parse and the
+    clock reading is valid; no result otherwise.
+    Hypotheses: the timestamp cell is inside the text model of `%z` (`strptime_timestamp ≠ error other`); on the four float
+    cells the prelude's `float()` (C11 / C14 text layer) and the reader model's `ReaderText.pyFloat` read the same value
+    (they differ on digit-group underscores, non-finite words and overflow). -/
+theorem jma_record_eq_model (id : Int) (line : List (List Char)) (first : Bool)
+    (hts : ∀ s, line[0]? = some s → Py.strptime_timestamp s jmaFmt ≠ .error .other)
+    (hfl : ∀ k ∈ [1, 2, 3, 4], ∀ s, line[k]? = some s →
+      Py.float_str s = match ReaderText.pyFloat s with | some x => .ok x | none => .error .valueError) :
+    jmaOutcome (Src.jma_record id line first)
+      = (match jmaTokens line with
+         | some .header => if first then some none else none
+         | some (.row r) => (match jmaRecF r with | .ok ev => some (some ev) | .error _ => none)
+         | none => none) := by
+  have hst : "timestamp".toList = (['t', 'i', 'm', 'e', 's', 't', 'a', 'm', 'p'] : List Char) := by decide
+  rcases line with _ | ⟨a0, _ | ⟨a1, _ | ⟨a2, _ | ⟨a3, _ | ⟨a4, rest⟩⟩⟩⟩⟩
+  case cons.cons.cons.cons.cons =>
+    have ht := strptime_timestamp_of a0 (hts a0 (by simp))
+    have h1 := hfl 1 (by simp) a1 (by simp)
+    have h2 := hfl 2 (by simp) a2 (by simp)
+    have h3 := hfl 3 (by simp) a3 (by simp)
+    have h4 := hfl 4 (by simp) a4 (by simp)
+    clear hts hfl
+    unfold jmaFmt at ht
+    simp only [Src.jma_record, Py.list_item, List.getElem?_cons_zero, List.getElem?_cons_succ, ht, h1, h2, h3, h4,
+      jmaTokens, List.head?_cons]
+    by_cases hh : a0 = ['t', 'i', 'm', 'e', 's', 't', 'a', 'm', 'p']
+    · have hp : parseJmaTime ['t', 'i', 'm', 'e', 's', 't', 'a', 'm', 'p'] = none := by decide
+      subst hh
+      cases first <;> simp [hst, hp, jmaOutcome]
+    · have hb : (some a0 == some "timestamp".toList) = false := by simp [hst, hh]
+      have hd : decide (a0 = ['t', 'i', 'm', 'e', 's', 't', 'a', 'm', 'p']) = false := by simp [hh]
+      simp only [hb, hd, Bool.false_eq_true, if_false, Bool.and_false]
+      cases first <;> simp only [Bool.false_eq_true, if_false, if_true] <;>
+      ( rcases hpj : parseJmaTime a0 with _ | ⟨c, us, off⟩
+        · simp [jmaOutcome]
+        · by_cases hv : (c.valid && decide (0 ≤ us) && decide (us < 1000000)) = true
+          · cases pyFloat a1 <;> cases pyFloat a2 <;> cases pyFloat a3 <;> cases pyFloat a4 <;>
+              simp [hv, jmaOutcome, jmaRecF, jmaTimeF, bind, Option.bind]
+          · cases pyFloat a1 <;> cases pyFloat a2 <;> cases pyFloat a3 <;> cases pyFloat a4 <;>
+              simp [hv, jmaOutcome, jmaRecF, jmaTimeF, bind, Option.bind] )
+  case nil => cases first <;> simp [Src.jma_record, Py.list_item, jmaTokens, jmaOutcome]
+  all_goals (
+    have ht := strptime_timestamp_of a0 (hts a0 (by simp))
+    try have h1 := hfl 1 (by simp) a1 (by simp)
+    try have h2 := hfl 2 (by simp) a2 (by simp)
+    try have h3 := hfl 3 (by simp) a3 (by simp)
+    clear hts hfl
+    unfold jmaFmt at ht
+    simp only [Src.jma_record, Py.list_item, List.getElem?_cons_zero, List.getElem?_cons_succ, List.getElem?_nil, *,
+      jmaTokens, List.head?_cons]
+    by_cases hh : a0 = ['t', 'i', 'm', 'e', 's', 't', 'a', 'm', 'p']
+    · have hp : parseJmaTime ['t', 'i', 'm', 'e', 's', 't', 'a', 'm', 'p'] = none := by decide
+      subst hh
+      cases first <;> simp [hp, jmaOutcome]
+    · have hb : (some a0 == some (['t', 'i', 'm', 'e', 's', 't', 'a', 'm', 'p'] : List Char)) = false := by simp [hh]
+      have hd : decide (a0 = ['t', 'i', 'm', 'e', 's', 't', 'a', 'm', 'p']) = false := by simp [hh]
+      simp only [hb, hd, Bool.false_eq_true, if_false, Bool.and_false]
+      cases first <;> simp only [Bool.false_eq_true, if_false, if_true] <;>
+      ( rcases hpj : parseJmaTime a0 with _ | ⟨c, us, off⟩
+        · simp [jmaOutcome]
+        · by_cases hv : (c.valid && decide (0 ≤ us) && decide (us < 1000000)) = true
+          · simp [hv, jmaOutcome]
+            all_goals (try (cases pyFloat a1 <;> (try simp [jmaOutcome])))
+            all_goals (try (cases pyFloat a2 <;> (try simp [jmaOutcome])))
+            all_goals (try (cases pyFloat a3 <;> (try simp [jmaOutcome])))
+          · simp [hv, jmaOutcome] ))
 end Src
